@@ -133,6 +133,18 @@ def sys_part(ctx, quick):
             exp.append(("L",))
         cmds.append("CON tcp sequential nonexistent-%d.verif.test %d - 0.25" % (ctx.seed, port))
         exp.append(("NX",))
+        # an answer too large for a UDP reply (truncated -> the resolver retries over TCP): 40 addresses, the 40th accepts
+        big = ["127.0.240.%d" % (i + 1) for i in range(40)]
+        bname = "big%d.verif.test" % ctx.seed
+        resp.table[bname] = {"A": big, "AAAA": []}
+        cmds.append("LISTEN %s %d accept" % (big[0], port))
+        exp.append(("L",))
+        cmds.append("CON tcp sequential %s %d - 0.25" % (bname, port))
+        exp.append(("CON", "sequential", big[:1], ["accept"], "-", "tcp", False))
+        cmds.append("SRV tcp:%s:0" % bname)
+        exp.append(("SRVOK",))
+        cmds.append("RESET")
+        exp.append(("L",))
         rc, out, err = sysattr.run(exe, cmds, ctx, timeout=150)
         ctx.traces += 1
         if rc == -999:
@@ -160,6 +172,9 @@ def sys_part(ctx, quick):
             if e[0] == "SRV":
                 if not o.startswith("server NULL ENOENT") or t > 3.0:
                     ctx.violation("sys_dns:monitor:server-unresolvable", "xcm_server on an unresolvable name: %s" % o, rep)
+            elif e[0] == "SRVOK":
+                if not o.startswith("server ok"):
+                    ctx.violation("sys_dns:monitor:server-resolvable-failed", "xcm_server on a name whose (large) answer needs DNS over TCP: %s" % o, rep)
             elif e[0] == "NX":
                 if "ENOENT" not in o or t > 3.0:
                     ctx.violation("sys_dns:monitor:connect-unresolvable", "connect to an unresolvable name: %s" % o, rep)
@@ -207,6 +222,7 @@ def sys_part(ctx, quick):
                             alg, addrs, beh, got, werr), rep)
         ctx.sample({"harness": "sys_dns", "cmds": cmds[2:6], "impl_out": out[2:6]}, cap=8)
         ctx.dist["dns_queries_answered"] = resp.queries
+        ctx.dist["dns_tcp_queries_answered"] = resp.tcp_queries
     finally:
         resp.close()
 
